@@ -746,6 +746,11 @@ def run_defaults(case, o: Oracle) -> None:
             o.check("registers_loaded", list(sett.keys()) == list(m.presets.keys()), "template_presets",
                     "%s: template presets differ from the preset file (%d vs %d)" % (t, len(sett), len(m.presets)))
 
+    for g in m.groups:
+        if not g.complete:
+            # e.g. mcxn946 a0: the specification of the old revision has one word where the shared group definition names twelve
+            o.label("spec:group_incomplete")
+
     # ---------------- the database's computed fields and the specification's own 'calculated' marks
     if area in ("pfr", "ifr") and m.computed:
         declared = {(ru, bu) for ru, fs in m.computed.items() for bu in fs}
@@ -966,6 +971,13 @@ def _pfr_seal_and_rotkh(m: Model, obj, data: bytes, o: Oracle) -> None:
     else:
         o.check("computed", sealed == data, "seal_absent", "%s: no seal in the database, but add_seal changed the binary" % (t,))
     g = next((g for g in m.groups if g.name == "ROTKH"), None)
+    if g is not None and g.subs and g.width in (256, 384) and not (g.complete and g.contiguous):
+        # the root-of-trust hash is 32 or 48 bytes from the group's first word on, whatever the grouping data say: a
+        # ROTKH group that lost a member would otherwise go unnoticed (the whole hash must be in the binary)
+        rot = hashlib.sha384(("%s/%s" % (m.dev, m.rev)).encode()).digest()[: g.width // 8]
+        got = copy.deepcopy(obj).export(rotkh=rot, draw=False)
+        o.check("computed", got[g.offset : g.offset + len(rot)] == rot, "rotkh_truncated",
+                "%s: export(rotkh=%d bytes): binary has %s at 0x%x" % (t, len(rot), got[g.offset : g.offset + len(rot)].hex(), g.offset))
     if g is not None and g.complete and g.contiguous:
         rot = hashlib.sha256(("%s/%s" % (m.dev, m.rev)).encode()).digest()
         x = copy.deepcopy(obj)
@@ -974,6 +986,13 @@ def _pfr_seal_and_rotkh(m: Model, obj, data: bytes, o: Oracle) -> None:
         want[g.offset : g.offset + 32] = rot
         o.check("computed", got == bytes(want), "rotkh_placement", "%s: export(rotkh=R) != binary with R at 0x%x (%s)" % (t, g.offset, _diff(bytes(want), got)))
         o.label("rotkh")
+        if g.width == 384:
+            # the full-width (SHA-384) value fills the whole field
+            rot48 = hashlib.sha384(("%s/%s" % (m.dev, m.rev)).encode()).digest()
+            got = copy.deepcopy(obj).export(rotkh=rot48, draw=False)
+            want[g.offset : g.offset + 48] = rot48
+            o.check("computed", got == bytes(want), "rotkh_placement_384", "%s: export(rotkh=48 bytes) != binary with R at 0x%x (%s)" % (t, g.offset, _diff(bytes(want), got)))
+            o.label("rotkh384")
         feats = _state()["db"].devices[m.dev].revisions[m.rev]
         if (feats.get("cert_block") or {}).get("rot_type") == "cert_block_1":
             from vf.gen import keys as K
